@@ -216,6 +216,11 @@ impl Boudot2000RangeProof {
     where
         H: Digest,
     {
+        // F is a residue modulo n: only its canonical representative is accepted
+        if proof_of_s.F < 0 || &proof_of_s.F >= n {
+            return false;
+        }
+
         Self::verify_same_secret::<H>(
             &proof_of_s.F,
             &proof_of_s.E,
@@ -634,6 +639,11 @@ impl Boudot2000RangeProof {
     {
         if rmax <= rmin {
             panic!("rmin > rmax");
+        }
+
+        // E is a residue modulo `module`: only its canonical representative is accepted
+        if self.E < 0 || &self.E >= module {
+            return false;
         }
 
         let T = 2 * (Self::t + Self::l + 1) + ((rmax - rmin).complete().significant_bits());
